@@ -171,6 +171,16 @@ func (x *Exec) execStmt(s ast.Stmt, st *State) *State {
 					v = x.zero(obj.Type())
 				}
 				x.declare(n, v, st)
+				if i >= len(vs.Values) && x.fr().boxed[obj] {
+					if nt, ok := types.Unalias(obj.Type()).(*types.Named); ok {
+						if zi, ok := x.eng.db.ZeroInit[qualName(nt)]; ok {
+							gs := x.eng.pre.Ghost[zi[0]]
+							ref := st.env[obj].P.Base
+							m := st.hget("G!"+zi[0], ArrS(IntS, gs))
+							st.hset("G!"+zi[0], Store(m, ref, Var(zi[1], gs)), ref)
+						}
+					}
+				}
 			}
 		}
 		return st
